@@ -2924,6 +2924,15 @@ class Walker:
         # choice), of an accuracy, or of a choice between such values: the same number (these are floats: setters, metrics)
         if fn == ("builtin", "float") and len(args) == 1 and not kwargs and _float_valued(args[0]):
             return args[0]
+        # float(M.min()) / np.float64(M.max()) of a float matrix built in this walk: the same number
+        if fn in (("builtin", "float"), ("mod", "numpy.float64"), ("mod", "numpy.double")) and len(args) == 1 and not kwargs \
+                and args[0][0] == "call" and args[0][1][0] == "attr" and args[0][1][2] in ("min", "max") and not args[0][2] and not args[0][3]:
+            b0 = args[0][1][1]
+            while b0[0] == "old":
+                b0 = b0[1]
+            if b0[0] == "alloc" and str(b0[1]).startswith("numpy.") and dict(b0[3]).get("dtype") in (
+                    None, ("mod", "numpy.float64"), ("builtin", "float")):
+                return args[0]
         # np.float64(0.0) is 0.0
         if fn in (("mod", "numpy.float64"), ("mod", "numpy.double")) and len(args) == 1 and not kwargs and args[0][0] == "const" \
                 and isinstance(args[0][1], (int, float)) and not isinstance(args[0][1], bool):
